@@ -645,3 +645,269 @@ Proof.
 Qed.
 Lemma fetch_children_fresh f a k : fetch_children G0 f (Fresh a) k = Ok [].
 Proof. rewrite fetch_children_G0. destruct (sub f (top f) (flat_key k)) as [[ca cn]|]; reflexivity. Qed.
+
+(* ------------------------------------------------------------------ one entity of the layout, read from the file with [x] deleted *)
+Section DelEnt.
+  Variable s : fspec.
+  Hypothesis Hwf : wf s.
+  Variable x : item.
+  Variable f' : h5.
+  Hypothesis Htop : top f' = [].
+  Hypothesis Hnode : forall b, node_at f' b =
+     if addr_eqb (item_addr x) b then option_map (del_in_node x) (layout_at s b) else layout_at s b.
+  Variable t : etree.
+  Hypothesis Hin : In t (subtrees (fs_root s)).
+
+  Let a := item_addr x.
+  Let k := et_kind t.
+  Let u := et_uid t.
+  Let ea := ent_addr k u.
+  Let en' := if addr_eqb a ea then del_in_node x (ent_node t) else ent_node t.
+  Let hit_top := addr_eqb a [] && link_hits x (flat_key k).
+  Let hit_flat := addr_eqb a [flat_key k] && link_hits x (KU u).
+
+  Lemma P_top : sub f' [] (flat_key k) = if hit_top then None else option_map (pair [flat_key k]) (node_at f' [flat_key k]).
+  Proof.
+    unfold sub. rewrite (D_getlink s x f' Hnode). simpl layout_at. cbv iota. fold a. fold hit_top.
+    destruct hit_top; [reflexivity|].
+    assert (lookup (flat_key k) (n_links (top_node s)) = Some [flat_key k]) as -> by (destruct k; reflexivity).
+    destruct (node_at f' [flat_key k]); reflexivity.
+  Qed.
+  Lemma P_flat_node : exists n1, node_at f' [flat_key k] = Some n1.
+  Proof. rewrite Hnode, L_flat. destruct (addr_eqb (item_addr x) [flat_key k]); simpl; eexists; reflexivity. Qed.
+
+  Lemma P_ent : sub_uid f' [flat_key k] (U u) = if hit_flat then None else Some (ea, en').
+  Proof.
+    unfold sub_uid, sub. rewrite (D_getlink s x f' Hnode). rewrite L_flat. fold a. fold hit_flat.
+    destruct hit_flat; [reflexivity|]. simpl n_links. rewrite lookup_uid_map.
+    assert (memN u (ents_of_kind s k) = true) as -> by (apply memN_In; apply (in_ents_of_kind s t Hin)).
+    rewrite Hnode. rewrite (L_ent s k u). unfold k, u. rewrite (find_ent_in s Hwf t Hin). simpl. unfold en', ea, a, k, u.
+    destruct (addr_eqb (item_addr x) (ent_addr (et_kind t) (et_uid t))); reflexivity.
+  Qed.
+
+  Lemma P_view p :
+    load_entity G0 f' (U u) (Some k) p =
+    if hit_top then Err KeyError
+    else if hit_flat then Ok None
+    else match fa_tail f' (U u) ea en' with
+         | Some (ea', attrs, tv, pgs) => create_entity f' G0 (rkind_of k) ea' attrs tv pgs p
+         | None => Ok None
+         end.
+  Proof.
+    rewrite load_entity_G0, Htop, P_top. destruct hit_top; [reflexivity|].
+    destruct P_flat_node as [n1 E]. rewrite E. unfold option_map. rewrite P_ent. destruct hit_flat; reflexivity.
+  Qed.
+
+  Lemma P_list :
+    fetch_children G0 f' (U u) k = Ok (if hit_top || hit_flat then [] else flat_map (kids_of_container f') (n_links en')).
+  Proof.
+    rewrite fetch_children_G0, Htop, P_top. destruct hit_top; [reflexivity|].
+    destruct P_flat_node as [n1 E]. rewrite E. unfold option_map. rewrite P_ent. destruct hit_flat; reflexivity.
+  Qed.
+End DelEnt.
+
+(* ------------------------------------------------------------------ list algebra used below *)
+Lemma flat_map_remove_key {V X} (g : key * V -> list X) k0 (l : list (key * V)) :
+  flat_map g (remove_key k0 l) = flat_map (fun e => if key_eqb k0 (fst e) then [] else g e) l.
+Proof.
+  induction l as [|[k1 v] r IH]; simpl; [reflexivity|]. destruct (key_eqb k0 k1); simpl; rewrite IH; reflexivity.
+Qed.
+Lemma flat_map_ext_in {X Y} (g h : X -> list Y) l : (forall e, In e l -> g e = h e) -> flat_map g l = flat_map h l.
+Proof.
+  induction l as [|e r IH]; simpl; intros H; [reflexivity|]. rewrite (H e) by (left; reflexivity). rewrite IH; [reflexivity|].
+  intros e' He'. apply H. right. exact He'.
+Qed.
+Lemma flat_map_nil {X Y} (g : X -> list Y) l : (forall e, In e l -> g e = []) -> flat_map g l = [].
+Proof. induction l as [|e r IH]; simpl; intros H; [reflexivity|]. rewrite (H e) by (left; reflexivity). rewrite IH; [reflexivity|]. intros; apply H; right; assumption. Qed.
+Lemma flat_map_single {X} (g : X -> list X) l : (forall e, In e l -> g e = [e]) -> flat_map g l = l.
+Proof. induction l as [|e r IH]; simpl; intros H; [reflexivity|]. rewrite (H e) by (left; reflexivity). simpl. rewrite IH; [reflexivity|]. intros; apply H; right; assumption. Qed.
+Lemma filter_flat_map {X Y} (p : Y -> bool) (g : X -> list Y) l : filter p (flat_map g l) = flat_map (fun e => filter p (g e)) l.
+Proof. induction l as [|e r IH]; simpl; [reflexivity|]. rewrite filter_app, IH. reflexivity. Qed.
+Lemma filter_map_comm {X Y} (p : Y -> bool) (g : X -> Y) l : filter p (map g l) = map g (filter (fun e => p (g e)) l).
+Proof. induction l as [|e r IH]; simpl; [reflexivity|]. destruct (p (g e)); simpl; rewrite IH; reflexivity. Qed.
+Lemma filter_false {X} (p : X -> bool) l : (forall e, In e l -> p e = false) -> filter p l = [].
+Proof. induction l as [|e r IH]; simpl; intros H; [reflexivity|]. rewrite (H e) by (left; reflexivity). apply IH. intros; apply H; right; assumption. Qed.
+
+Lemma nodup_keys_lookup {V} (l : list (key * V)) kk v : nodup_keys l = true -> In (kk, v) l -> lookup kk l = Some v.
+Proof.
+  induction l as [|[k1 v1] r IH]; simpl; intros Hn Hi; [contradiction|].
+  apply andb_true_iff in Hn. destruct Hn as [Hn1 Hn2]. destruct Hi as [Hi|Hi].
+  - inversion Hi; subst. rewrite key_eqb_refl. reflexivity.
+  - destruct (key_eqb kk k1) eqn:E.
+    + apply key_eqb_eq in E. subst k1. unfold has_key in Hn1. rewrite (IH Hn2 Hi) in Hn1. discriminate.
+    + apply IH; assumption.
+Qed.
+
+Lemma nk_list_eq l1 l2 : list_eqb nk_eqb l1 l2 = true -> l1 = l2.
+Proof.
+  apply list_eqb_spec. intros [a1 b1] [a2 b2]. unfold nk_eqb. simpl. rewrite andb_true_iff, N.eqb_eq, ekind_eqb_eq.
+  split; [intros [-> ->]; reflexivity | intros H; inversion H; auto].
+Qed.
+
+(* ------------------------------------------------------------------ what wf says about one entity *)
+Section EntFacts.
+  Variable s : fspec.
+  Hypothesis Hwf : wf s.
+  Variable t : etree.
+  Hypothesis Hin : In t (subtrees (fs_root s)).
+
+  Lemma ent_ok_parts :
+    lookup KID (et_attrs t) = Some (VUid (et_uid t))
+    /\ child_keys t = map key_of (et_kids t)
+    /\ (et_kind t = KData -> et_kids t = [] /\ et_conts t = [])
+    /\ (et_kind t <> KObject -> et_pgs t = None)
+    /\ (forall d, In d (et_dsets t) -> dset_key_ok (et_kind t) (fst d) = true)
+    /\ nodup_keys (et_dsets t) = true
+    /\ (forall p, et_pgs t = Some p -> nodup_keys p = true)
+    /\ type_ok s t = true.
+  Proof.
+    pose proof (wf_ent s Hwf t Hin) as H. unfold ent_ok in H.
+    repeat (apply andb_true_iff in H; destruct H as [H ?]).
+    repeat split.
+    - destruct (lookup KID (et_attrs t)) as [v|]; simpl in H; [|discriminate]. destruct v; simpl in H; try discriminate.
+      apply N.eqb_eq in H. subst. reflexivity.
+    - apply nk_list_eq. assumption.
+    - destruct (et_kind t); try discriminate. destruct (et_kids t); [reflexivity | discriminate].
+    - destruct (et_kind t); try discriminate. destruct (et_kids t); [|discriminate]. destruct (et_conts t); [reflexivity | discriminate].
+    - intros Hk. destruct (et_kind t); try congruence; destruct (et_pgs t); try reflexivity; discriminate.
+    - intros d Hd. match goal with H0 : forallb _ (et_dsets t) = true |- _ => rewrite forallb_forall in H0; apply H0; exact Hd end.
+    - assumption.
+    - intros p Ep. match goal with H0 : match et_pgs t with Some _ => _ | None => _ end = true |- _ => rewrite Ep in H0; exact H0 end.
+    - assumption.
+  Qed.
+
+  Lemma dsets_no_flat ck : et_kind t <> KData -> lookup (flat_key ck) (et_dsets t) = None.
+  Proof.
+    intros Hk. destruct ent_ok_parts as [_ [_ [_ [_ [Hd _]]]]].
+    induction (et_dsets t) as [|[kk v] r IH]; simpl; [reflexivity|].
+    assert (Hkk : dset_key_ok (et_kind t) kk = true) by (apply (Hd (kk, v)); left; reflexivity).
+    destruct (key_eqb (flat_key ck) kk) eqn:E.
+    - apply key_eqb_eq in E. subst kk. destruct ck, (et_kind t); simpl in Hkk; try discriminate; congruence.
+    - apply IH. intros d Hd'. apply Hd. right. exact Hd'.
+  Qed.
+  Lemma dsets_no_special kk : (kk = KType \/ kk = KPGs \/ kk = KCmap \/ kk = KVmap) -> lookup kk (et_dsets t) = None.
+  Proof.
+    intros Hs0. destruct ent_ok_parts as [_ [_ [_ [_ [Hd _]]]]].
+    induction (et_dsets t) as [|[k1 v] r IH]; simpl; [reflexivity|].
+    assert (Hkk : dset_key_ok (et_kind t) k1 = true) by (apply (Hd (k1, v)); left; reflexivity).
+    destruct (key_eqb kk k1) eqn:E.
+    - apply key_eqb_eq in E. subst k1. destruct Hs0 as [E1 | [E1 | [E1 | E1]]]; subst; simpl in Hkk; discriminate.
+    - apply IH. intros d Hd'. apply Hd. right. exact Hd'.
+  Qed.
+End EntFacts.
+
+Lemma ku_entries_all (ck : ekind) (g : etree -> addr) (l : list etree) :
+  flat_map (fun e : key * addr => match fst e with KU m => [(m, ck)] | _ => @nil (N * ekind) end) (map (fun c => (KU (et_uid c), g c)) l)
+  = map (fun c => (et_uid c, ck)) l.
+Proof. induction l as [|c r IH]; simpl; [reflexivity|]. rewrite IH. reflexivity. Qed.
+Lemma ku_entries_del (ck : ekind) k0 (g : etree -> addr) (l : list etree) :
+  flat_map (fun e : key * addr => if key_eqb k0 (fst e) then @nil (N * ekind) else match fst e with KU m => [(m, ck)] | _ => [] end)
+           (map (fun c => (KU (et_uid c), g c)) l)
+  = map (fun c => (et_uid c, ck)) (filter (fun c => negb (key_eqb k0 (KU (et_uid c)))) l).
+Proof.
+  induction l as [|c r IH]; simpl; [reflexivity|]. destruct (key_eqb k0 (KU (et_uid c))); simpl; rewrite IH; reflexivity.
+Qed.
+Lemma filter_true {X} (l : list X) : filter (fun _ => true) l = l.
+Proof. induction l as [|e r IH]; simpl; [reflexivity|]. rewrite IH. reflexivity. Qed.
+
+(* ------------------------------------------------------------------ the children listed for one entity after the deletion *)
+Section DelList.
+  Variable s : fspec.
+  Hypothesis Hwf : wf s.
+  Variable x : item.
+  Variable f' : h5.
+  Hypothesis Htop : top f' = [].
+  Hypothesis Hnode : forall b, node_at f' b =
+     if addr_eqb (item_addr x) b then option_map (del_in_node x) (layout_at s b) else layout_at s b.
+  Variable t : etree.
+  Hypothesis Hin : In t (subtrees (fs_root s)).
+
+  Let a := item_addr x.
+  Let k := et_kind t.
+  Let u := et_uid t.
+  Let ea := ent_addr k u.
+
+  Definition cont_removed (ck : ekind) : bool := addr_eqb a ea && link_hits x (flat_key ck).
+  Definition entry_removed (ck : ekind) (v : N) : bool := addr_eqb a (ea ++ [flat_key ck]) && link_hits x (KU v).
+  Definition keep_of (c : N * ekind) : bool :=
+    negb (addr_eqb a [] && link_hits x (flat_key k)) && negb (addr_eqb a [flat_key k] && link_hits x (KU u))
+    && negb (cont_removed (snd c)) && negb (entry_removed (snd c) (fst c)).
+
+  (* the node of a child container in the damaged file *)
+  Lemma cont_node ck : In ck (et_conts t) ->
+    kids_of_container f' (flat_key ck, ea ++ [flat_key ck]) =
+    map (fun c => (et_uid c, ck)) (filter (fun c => negb (entry_removed ck (et_uid c))) (kids_of_kind t ck)).
+  Proof.
+    intros Hck. unfold kids_of_container. cbn [fst snd].
+    assert (Hct : ctype_of (flat_key ck) = Some ck) by (destruct ck; reflexivity). rewrite Hct.
+    assert (Hk : k <> KData).
+    { intros E. destruct (ent_ok_parts s Hwf t Hin) as [_ [_ [Hd _]]]. destruct (Hd E) as [_ Hc]. rewrite Hc in Hck. contradiction. }
+    assert (Hlay : layout_at s (ea ++ [flat_key ck]) =
+                   Some (group_node (map (fun c => (KU (et_uid c), ent_addr ck (et_uid c))) (kids_of_kind t ck)))).
+    { unfold ea. rewrite L_under. unfold k, u. rewrite (find_ent_in s Hwf t Hin). unfold under_entity.
+      rewrite (dsets_no_flat s Hwf t Hin ck Hk).
+      assert (Hex : existsb (ekind_eqb ck) (et_conts t) = true).
+      { apply existsb_exists. exists ck. split; [exact Hck | apply ekind_eqb_refl]. }
+      destruct ck; simpl; rewrite Hex; reflexivity. }
+    rewrite Hnode. fold a. rewrite Hlay. unfold entry_removed.
+    destruct (addr_eqb a (ea ++ [flat_key ck])) eqn:Ea; simpl.
+    - rewrite (del_data s x f'). simpl n_data. cbv iota. rewrite (del_links s x f'). destruct x as [a0 k0|a0 k0]; cbn [link_hits n_links group_node andb negb].
+      + rewrite ku_entries_all, filter_true. reflexivity.
+      + rewrite flat_map_remove_key. apply ku_entries_del.
+    - cbn [andb negb n_data n_links group_node]. rewrite ku_entries_all, filter_true. reflexivity.
+  Qed.
+
+  Lemma dset_link_no_kids d : In d (et_dsets t) -> kids_of_container f' (fst d, ea ++ [fst d]) = [].
+  Proof.
+    intros Hd. unfold kids_of_container. cbn [fst snd].
+    destruct (ent_ok_parts s Hwf t Hin) as [_ [_ [_ [_ [Hdk [Hnd _]]]]]].
+    pose proof (Hdk d Hd) as Hok. destruct d as [kk tok]. simpl in *.
+    destruct kk; simpl in Hok; try discriminate; simpl; try reflexivity.
+    (* "Data" under a data node: a dataset *)
+    pose proof (D_data s x f' Hnode (ea ++ [KDatas])) as Hdat.
+    assert (Hlay : layout_at s (ea ++ [KDatas]) = Some (dset_node [] tok)).
+    { unfold ea. rewrite L_under. unfold k, u. rewrite (find_ent_in s Hwf t Hin). unfold under_entity.
+      rewrite (nodup_keys_lookup _ _ _ Hnd Hd). reflexivity. }
+    rewrite Hlay in Hdat. simpl in Hdat.
+    destruct (node_at f' (ea ++ [KDatas])) as [n|]; [|reflexivity]. simpl in Hdat. inversion Hdat as [E]. rewrite E. reflexivity.
+  Qed.
+
+  Lemma P_list2 :
+    fetch_children G0 f' (U u) k = Ok (filter keep_of (map key_of (et_kids t))).
+  Proof.
+    rewrite (P_list s Hwf x f' Htop Hnode t Hin). fold a k u ea.
+    destruct (ent_ok_parts s Hwf t Hin) as [_ [Hkids _]]. rewrite <- Hkids.
+    destruct (addr_eqb a [] && link_hits x (flat_key k)) eqn:E1.
+    { simpl. symmetry. apply filter_false. intros e _. unfold keep_of. rewrite E1. reflexivity. }
+    destruct (addr_eqb a [flat_key k] && link_hits x (KU u)) eqn:E2.
+    { simpl. symmetry. apply filter_false. intros e _. unfold keep_of. rewrite E1, E2. reflexivity. }
+    simpl. f_equal.
+    (* the links of the entity node, with the deleted one mapped to [] *)
+    assert (Hl : flat_map (kids_of_container f') (n_links (if addr_eqb a ea then del_in_node x (ent_node t) else ent_node t)) =
+                 flat_map (fun e => if addr_eqb a ea && link_hits x (fst e) then [] else kids_of_container f' e) (n_links (ent_node t))).
+    { destruct (addr_eqb a ea); simpl.
+      - rewrite (del_links s x f'). destruct x as [a0 k0|a0 k0]; simpl; [reflexivity|]. apply flat_map_remove_key.
+      - reflexivity. }
+    rewrite Hl. unfold ent_node. simpl n_links. fold k u ea. simpl flat_map.
+    assert (Hty : (if addr_eqb a ea && link_hits x KType then [] else kids_of_container f' (KType, type_addr k (et_ty t))) = []).
+    { destruct (addr_eqb a ea && link_hits x KType); reflexivity. }
+    rewrite Hty. simpl. rewrite !flat_map_app.
+    assert (Hpg : flat_map (fun e : key * addr => if addr_eqb a ea && link_hits x (fst e) then [] else kids_of_container f' e)
+                    (match et_pgs t with Some _ => [(KPGs, ea ++ [KPGs])] | None => [] end) = []).
+    { destruct (et_pgs t); simpl; [|reflexivity]. destruct (addr_eqb a ea && link_hits x KPGs); reflexivity. }
+    rewrite Hpg. simpl.
+    assert (Hds : flat_map (fun e : key * addr => if addr_eqb a ea && link_hits x (fst e) then [] else kids_of_container f' e)
+                    (map (fun d : key * N => (fst d, ea ++ [fst d])) (et_dsets t)) = []).
+    { rewrite flat_map_concat_map, map_map, <- flat_map_concat_map. apply flat_map_nil. intros d Hd. simpl.
+      destruct (addr_eqb a ea && link_hits x (fst d)); [reflexivity|]. apply dset_link_no_kids. exact Hd. }
+    rewrite Hds, app_nil_r.
+    unfold child_keys. rewrite filter_flat_map. rewrite flat_map_concat_map, map_map, <- flat_map_concat_map.
+    apply flat_map_ext_in. intros ck Hck. simpl fst.
+    rewrite filter_map_comm.
+    destruct (addr_eqb a ea && link_hits x (flat_key ck)) eqn:Ec.
+    - symmetry. rewrite filter_false; [reflexivity|]. intros c _. unfold keep_of, cont_removed. simpl. fold a k u ea. rewrite Ec.
+      rewrite !andb_false_r. reflexivity.
+    - rewrite (cont_node ck Hck). f_equal. apply filter_ext. intros c. unfold keep_of, cont_removed. simpl. fold a k u ea.
+      rewrite E1, E2, Ec. reflexivity.
+  Qed.
+End DelList.
